@@ -181,7 +181,7 @@ def work(item):
 def run(tier, seed):
     fixtures.register()
     res = core.Result(PROPERTY, LEVEL, tier, seed)
-    widths = (1, 2, 4, 8, 12, 16, 20, 30, 40, 79) if tier == 'quick' else tuple(range(1, 42)) + (79,)
+    widths = tuple(range(1, 42)) + (79,) if tier == 'quick' else tuple(range(1, 61)) + (79, 120, 200)
     items = [(name, True, (w,)) for name, _ in specs() for w in widths]
     res.add(core.pmap(work, items))
     res.coverage = {
@@ -189,7 +189,7 @@ def run(tier, seed):
         'rule': 'every shape x every assignment of {none, comment, trailing_comment, both} to its nodes x texts '
                 '(all %d texts on single-comment placements, all pairs of the first 9 on two-comment placements) x '
                 'widths %s; non-trivial = cases with at least one attached comment that satisfied the oracle'
-                % (len(TEXTS), list(widths) if len(widths) < 12 else '1..41, 79'),
+                % (len(TEXTS), '1..41, 79' if len(widths) < 50 else '1..60, 79, 120, 200'),
         'shapes': [n for n, _ in specs()], 'texts': TEXTS,
     }
     res.assumptions = ['trailing comments are attached only to list/tuple/set/dict values and their subclasses '
